@@ -18,6 +18,14 @@ static Expect expect_for(const Scenario &s, const Z &v, const Z &vp) {
   if (vp < 0 && s.q > 0 && zmod(vp - v, s.q) == 0) return UNJUDGED;
   return MUST_REFUSE;
 }
+// A duplicated line shifts every later line by one position and the surplus at the end is never read: the verifier then reads
+// orig[i-1] where it read orig[i].  When each of these replacements is an equivalent representation (equal text, or equivalent
+// under expect_for, e.g. a bit-valued line of the Rabin-type proofs that receives a value of the same parity), the transcript read
+// is equivalent to the accepted one and the outcome is recorded, not judged.
+static bool duplicate_is_equivalent(const Scenario &s, const std::vector<std::string> &orig, size_t pos) {
+  for (size_t i = pos + 1; i < orig.size(); i++) { if (orig[i] == orig[i - 1]) continue; Z a, b; if (!parse_value(orig[i], a) || !parse_value(orig[i - 1], b)) return false; if (expect_for(s, a, b) != UNJUDGED) return false; }
+  return true;
+}
 static std::string short_sig(const std::string &scen, const std::string &where, const std::string &mut) { return "binding/" + scen + "/" + where + "/" + mut + "/accepted"; }
 
 // classify a transcript line position into a coarse, stable name for signatures (first / last / middle would be unstable across sizes; use index for short transcripts, "line" otherwise)
@@ -34,7 +42,7 @@ static void mutate_transcript_case(Ctx &ctx, size_t entry, bool range_sweep = fa
     std::vector<size_t> positions; if (lines.size() <= 40) for (size_t i = 0; i < lines.size(); i++) positions.push_back(i); else for (int k = 0; k < 24; k++) positions.push_back(ctx.c.index(lines.size()));
     for (size_t pos : positions) for (const Mutation &m : catalogue()) {
       std::vector<std::string> ml = lines; Expect ex = MUST_REFUSE; Z v, mv;
-      if (m.textual) { if (m.name == "duplicate-line" && pos + 1 == lines.size()) continue; if (!mutate_text(m.name, ml, pos)) continue; }
+      if (m.textual) { if (m.name == "duplicate-line" && duplicate_is_equivalent(*s, lines, pos)) { ctx.count("duplicate_line_equivalent_transcript"); continue; } if (!mutate_text(m.name, ml, pos)) continue; }
       else { if (!parse_value(lines[pos], v)) continue; if (!mutate_value(ctx, m.name, v, s->p, s->q, mv)) continue; ml[pos] = z62(mv); ex = expect_for(*s, v, mv); }
       std::istringstream in(join_lines(ml)); std::stringstream o; bool ok = false, threw = false;
       try { ok = s->verify(in, o); } catch (std::exception &) { threw = true; }
@@ -64,7 +72,7 @@ static void mutate_transcript_case(Ctx &ctx, size_t entry, bool range_sweep = fa
         if (!parse_value(line, v)) return 0; if (!mutate_value(ctx, m.name, v, s->p, s->q, mv)) return 0; applied = true; ex = expect_for(*s, v, mv); line = z62(mv); return 0; };
       RunResult r = run_scenario(ctx, *s, hook);
       if (!applied) continue;
-      if (m.name == "duplicate-line" && pos + 1 == r.p_lines.size()) continue; // trailing garbage after the last message is never read
+      if (m.name == "duplicate-line" && duplicate_is_equivalent(*s, r.p_lines, pos)) { ctx.count("duplicate_line_equivalent_transcript"); continue; } // incl. trailing data after the last message, which is never read
       if (r.threw) refused_by_exception++;
       if (ex == UNJUDGED) { unjudged++; ctx.count(r.accepted ? "unjudged_accepted" : "unjudged_refused"); continue; }
       judged++;
@@ -135,7 +143,9 @@ VF_SUB(argument_parameters_bound, 60, 1500) {
   std::stringstream t, nul; s->prove(nul, t); std::string text = t.str();
   { std::istringstream in(text); std::stringstream o; if (!s->verify(in, o)) { ctx.label("baseline-rejected(C03)"); ctx.discard(); return; } }
   std::vector<std::string> lines = split_lines(s->ctor_text); size_t judged = 0;
-  for (size_t li : s->ctor_lines_in_use) {
+  // every line of the group / key part and of the first eight generators; of longer generator lists eight drawn lines (each rebuilt verifier precomputes its tables)
+  std::vector<size_t> use; { std::vector<size_t> rest; for (size_t li : s->ctor_lines_in_use) (li < 16 ? use : rest).push_back(li); for (int k = 0; k < 8 && !rest.empty(); k++) { size_t z = ctx.c.index(rest.size()); use.push_back(rest[z]); rest.erase(rest.begin() + z); } }
+  for (size_t li : use) {
     if (li >= lines.size()) continue;
     bool modulus = (li == 0 || li == 1 || li == 4 || li == 5);
     for (const Mutation &m : catalogue()) {
